@@ -77,3 +77,43 @@ Proof.
   - apply quiescentb_sound. vm_compute. reflexivity.
   - vm_compute. auto.
 Qed.
+
+(** * Rendezvous between job bodies: pool of 2 workers, job 0 blocks until job 1's body has ended; client 3: enqueue(0);
+      enqueue(1); loop_until_empty; done().  Trace of the real code (the harness' own rendezvous mutex / condition variable
+      events are not part of the LTS: the rendezvous is the single event WD, enabled only when job 1 has ended). *)
+Definition rdv_cfg : config :=
+  {| nworkers := 2; jobprog := fun j => match j with 0 => [JWait 1] | _ => [] end;
+     clients := [[CEnq 0; CEnq 1; CLoopEmpty; CDone]]; mainops := [] |}.
+Definition rdv_trace : list (nat * ev) :=
+  [(0, ESpawn 1); (0, ESpawn 2); (0, ESpawn 3); (1, ELock); (1, EAL ATerm 0);
+   (3, EUser UENQ 0); (1, EAR AIdle 0 1); (1, EAL ATerm 0); (1, EWB CJ); (2, ELock);
+   (2, EAL ATerm 0); (2, EAR AIdle 1 2); (2, EAL ATerm 0); (2, EWB CJ); (3, ELock);
+   (3, EN1 CJ (Some 2)); (3, EUnlock); (3, EUser UENQ 1); (3, ELock); (3, EN1 CJ (Some 1));
+   (3, EUnlock); (3, EUser ULE 0); (3, ELock); (3, EWB CF); (1, EWE CJ false);
+   (1, EAL ATerm 0); (1, EAR AIdle 2 1); (1, EAL ATerm 0); (1, EAR ABusy 0 1); (1, EUnlock);
+   (1, EUser UJS 0); (2, EWE CJ false); (2, EAL ATerm 0); (2, EAR AIdle 1 0); (2, EAL ATerm 0);
+   (2, EAR ABusy 1 2); (2, EUnlock); (2, EUser UJS 1); (2, EUser UJE 1); (2, EAR ADone 0 1);
+   (2, EAR ABusy 2 1); (2, ELock); (1, EUser UWD 1); (1, EUser UJE 0); (1, EAR ADone 1 2);
+   (2, ENA CF); (2, EAL ATerm 0); (2, EAR AIdle 0 1); (1, EAR ABusy 1 0); (2, EAL ATerm 0);
+   (2, EWB CJ); (3, EWE CF false); (3, EAL ABusy 0); (3, EUnlockR 2); (3, EAL ADone 2);
+   (3, EEnd); (0, EJoin 3); (0, ELock); (0, EAS ATerm 1); (0, ENA CJ);
+   (0, EUnlock); (1, ELock); (1, ENA CF); (1, EAL ATerm 1); (1, EAL ATerm 1);
+   (1, EUnlock); (1, EEnd); (0, EJoin 1); (2, EWE CJ false); (2, EAL ATerm 1);
+   (2, EAR AIdle 1 0); (2, EAL ATerm 1); (2, EUnlock); (2, EEnd); (0, EJoin 2)].
+Definition rdv_final : state :=
+  match run_gen rdv_cfg true false (init rdv_cfg) rdv_trace with Some s => s | None => init rdv_cfg end.
+Definition rdv_blocked : state :=
+  match run_gen rdv_cfg true false (init rdv_cfg) (firstn 31 rdv_trace) with Some s => s | None => init rdv_cfg end.
+
+Example ex_rendezvous :
+  reachable rdv_cfg false rdv_final /\ get (thr rdv_final) 0 = TM M8 /\ done (shr rdv_final) = 2 /\
+  reachable rdv_cfg false rdv_blocked /\
+  (* worker thread 1 is inside job 0, blocked: the rendezvous event is not accepted before job 1 has ended *)
+  cur_api (get (thr rdv_blocked) 1) = Some (QWait 1) /\ endedj (shr rdv_blocked) = [] /\
+  lstep rdv_cfg false rdv_blocked (1, EUser UWD 1) = None.
+Proof.
+  split; [apply (run_reachable rdv_cfg true false rdv_trace (init rdv_cfg)); [apply reach_init | vm_compute; reflexivity]|].
+  split; [vm_compute; reflexivity|]. split; [vm_compute; reflexivity|].
+  split; [apply (run_reachable rdv_cfg true false (firstn 31 rdv_trace) (init rdv_cfg)); [apply reach_init | vm_compute; reflexivity]|].
+  vm_compute. auto.
+Qed.
